@@ -1,2 +1,51 @@
-//! Harnesses for property C17 (see /verif/properties.jsonl).
+//! Harnesses for property C17 (see /verif/properties.jsonl): whenever the server answers a
+//! request, the answer also fits a buffer exactly as long as the request.
+//!
+//! Method: the same request is handled by two identically configured servers (same clock
+//! reading, same synchronisation state, same policy, same key set), once with a 1024-byte buffer
+//! and once with a buffer of exactly the request's length. Oracle: answered-with-big =>
+//! answered-with-small, with the same bytes.
+use crate::common::*;
 use crate::stubs;
+use ntp_proto::verif::packet::v5::server_reference_id as bh;
+use ntp_proto::*;
+
+pub const BIG: usize = 1024;
+
+/// Handle `msg` twice (big buffer, request-sized buffer) and check the C17 implication.
+/// Returns (answer length with the big buffer, answered with the request-sized buffer).
+pub fn fit_check(env: &Env, msg: &[u8], small: &mut [u8]) -> (Option<usize>, bool) {
+    let mut big = [0u8; BIG];
+    let mut s1 = env.server(v5::BloomFilter::new(), empty_keyset());
+    let mut s2 = env.server(v5::BloomFilter::new(), empty_keyset());
+    let mut st1 = RecStats::default();
+    let mut st2 = RecStats::default();
+    let r_big = handle_once(&mut s1, env, msg, &mut big, &mut st1);
+    let r_small = handle_once(&mut s2, env, msg, small, &mut st2);
+    if let Some(n) = r_big {
+        assert!(n < BIG, "the big buffer did not limit the answer");
+        assert!(r_small.is_some(), "C17: an answer that is produced with a large buffer also fits a request-sized buffer");
+        if let Some(m) = r_small {
+            assert!(m == n, "same answer length with both buffers");
+        }
+        assert!(st2.reason == st1.reason && st2.response == st1.response, "same statistics with both buffers");
+    } else {
+        assert!(r_small.is_none(), "a smaller buffer never turns an ignored request into an answered one");
+    }
+    (r_big, r_small.is_some())
+}
+
+srv_harness! {
+    #[kani::unwind(20)]
+    fn c17_fit_u52() {
+        let msg: [u8; 52] = kani::any();
+        let len: usize = kani::any();
+        kani::assume(len <= 52);
+        let env = Env::any();
+        let mut small = [0u8; 52];
+        let (big, _) = fit_check(&env, &msg[..len], &mut small[..len]);
+        kani::cover!(big == Some(48) && len == 48, "48-byte request answered in 48 bytes");
+        kani::cover!(big == Some(48) && len == 52, "request with MAC answered");
+        kani::cover!(big.is_none() && len >= 48, "ignored request");
+    }
+}
